@@ -16,7 +16,7 @@ func init() {
 			"(R03.4) NewSuffrageWithExpels requires every expel's node signs to reach the threshold count and removes exactly the expelled nodes; " +
 			"(R03.5) expel/stuck voteproofs reject duplicate expel nodes and expelled voters; an expel's node signs exclude the expelled node's own; " +
 			"(R03.6) all six concrete voteproof IsValid reach base.IsValidVoteproof; (R03.7) IsValidExpelWithSuffrage tests expiry, membership of the expelled node and every signer's key; " +
-			"(R03.8) the per-expel sign count in NewSuffrageWithExpels is compared with the full threshold count of the unreduced suffrage (violated today by the n-k lowering: known finding).",
+			"(R03.9) a stuck voteproof (whose recount is skipped) is valid only with an empty majority; (R03.8) the per-expel sign count in NewSuffrageWithExpels is compared with the full threshold count of the unreduced suffrage (violated today by the n-k lowering: known finding).",
 		NotDecided: "the quorum-intersection arithmetic itself (that these tests suffice for every n, t, equivocator set) — R03.8 is the one arithmetic fact encoded, found by a reproducer, not derived by the checker; signature cryptography.",
 		Run:        runC03,
 	})
@@ -226,6 +226,21 @@ func runC03(c *Ctx) {
 	if fn := c.Need("base.IsValidACCEPTVoteproof"); fn != nil {
 		c.MP(fn, "success: stage is ACCEPT", c.SuccessReturns(fn), 1, GCmp("vp.Point().Stage()", "==", "\"ACCEPT\""))
 	}
+	// R03.9: a stuck voteproof skips the recount in base.IsValidVoteproofWithSuffrage, so its
+	// IsValid must reject a non-empty majority (either in the concrete IsValid or in the shared
+	// baseStuckVoteproof.isValid it must pass through, R03.6).
+	c.Rule("R03.9", "MustPass")
+	innerOK := false
+	if in := c.Need("isaac.(baseStuckVoteproof).isValid"); in != nil {
+		innerOK = allOK(c.MustPass(in, nil, c.SuccessReturns(in), GNil("ovp.majority"), GNil("ovp.Majority()")))
+	}
+	for _, t := range []string{"INITStuckVoteproof", "ACCEPTStuckVoteproof"} {
+		if fn := c.Need("isaac.(" + t + ").IsValid"); fn != nil {
+			own := allOK(c.MustPass(fn, nil, c.SuccessReturns(fn), GNil("vp.majority"), GNil("vp.Majority()")))
+			c.Report(fn, "success: stuck voteproof has no majority", fn.Pos(), own || innerOK,
+				fmt.Sprintf("nil-majority gate in IsValid: %v; in baseStuckVoteproof.isValid: %v", own, innerOK))
+		}
+	}
 	// R03.7 --------------------------------------------------------------------------------
 	c.Rule("R03.7", "MustPass")
 	if fn := c.Need("isaac.IsValidExpelWithSuffrage"); fn != nil {
@@ -256,6 +271,18 @@ func expelSignBound(c *Ctx, fn *ssa.Function) string {
 		return "?"
 	}
 	return out
+}
+
+func allOK(res []MustPassResult) bool {
+	if len(res) == 0 {
+		return false
+	}
+	for _, r := range res {
+		if !r.OK {
+			return false
+		}
+	}
+	return true
 }
 
 // condsMatching lists If instructions whose condition descriptor matches.
